@@ -17,7 +17,7 @@ EPS = 2.0 ** -52
 
 
 def gen_list(rng, max_len):
-    kind = rng.choice(['small', 'mixed', 'offset', 'repeat', 'tiny', 'ints', 'single', 'two', 'long'])
+    kind = rng.choice(['small', 'mixed', 'offset', 'repeat', 'tiny', 'ints', 'single', 'two', 'long', 'grid', 'grid'])
     if kind == 'single':
         n = 1
     elif kind == 'two':
@@ -33,6 +33,11 @@ def gen_list(rng, max_len):
     elif kind == 'repeat':
         vals = [rng.uniform(1e-3, 1e4) for _ in range(rng.randint(1, 3))]
         xs = [rng.choice(vals) for _ in range(n)]
+    elif kind == 'grid':
+        # coarse grid: a sample is often exactly the running mean (4, 6, 5), the running minimum, ...
+        n = rng.randint(2, 12)
+        step = rng.choice([1.0, 0.5, 0.25, 5.0])
+        xs = [step * rng.randint(0, 8) for _ in range(n)]
     elif kind == 'tiny':
         xs = [rng.uniform(1e-3, 1e-2) for _ in range(n)]
     elif kind == 'ints':
@@ -234,6 +239,9 @@ CORPUS = [
     ('corpus', [3.0, 3.0, 3.0]),
     ('corpus', [0.001, 1e9]),
     ('corpus', [10.0, 1.0, 5.0, 0.5, 20.0]),
+    ('corpus', [4.0, 6.0, 5.0]),
+    ('corpus', [10.0, 20.0, 15.0, 15.0]),
+    ('corpus', [2.0, 2.0, 2.0, 8.0]),
 ]
 
 
